@@ -60,6 +60,18 @@ CHECKS = {
              'lines incl. dot-lines, key=value look-alikes and status look-alikes; GETCONF unset / 1..3 values incl. empty.',
         note='Trusted: refs/ctlcodec.py GETINFO/GETCONF encoder (control-spec 3.3, 3.9). Two genuine defects are recorded '
              'in known_findings.json (data line OK dropped; data line repeating the key splits the value).'),
+    'C05': dict(
+        engine=E1, design='DESIGN.md section 4 / C05',
+        technique='exhaustive enumeration of server reply kinds x segmentations (all 2^16 for the short success stream) x '
+                  'disconnect points on the real SOCKS client, oracle evaluated after every chunk against an independent '
+                  'RFC 1928 parser',
+        text='Bounded exhaustive model checking of the real TorSocksEndpoint.connect / resolve / resolve_ptr over a recorded '
+             'transport: every reply code 0..255 x 3 request types, IPv4/IPv6/domain(0,1,4,12,255 bytes)/unknown address '
+             'types, wrong versions and methods, 0/1/5 trailing application bytes; every segmentation of the 17-byte CONNECT '
+             'success stream, every single cut (pairs of cuts in thorough) and byte-wise delivery of all others, a disconnect '
+             'after every chunk. After EVERY chunk: application protocol exists iff a complete success reply was delivered '
+             'and holds exactly the bytes after it.',
+        note='Trusted: refs/socks5.py; the SOCKS endpoint/transport doubles. TLS wrapping is not explored.'),
 }
 
 PENDING = {}
